@@ -497,3 +497,14 @@ Theorem C11_config_flags_pairwise_distinct :
           bos "bidder-registry-contract"; bos "settlement-rpc-endpoint"] = true.
 Proof. exact Config_proofs.config_flags_distinct. Qed.
 Print Assumptions C11_config_flags_pairwise_distinct.
+
+(* the same through the environment: each contract flag has its own environment variable (source text of the
+   EnvVars element of its flag literal, regenerated from cmd/main.go), and the six configuration flags the
+   properties speak about have pairwise different ones *)
+Theorem C11_contract_env_vars :
+  map Config.flag_env_of_var [bos "optionPreconfStoreAddr"; bos "optionProviderRegistryAddr"; bos "optionBidderRegistryAddr"] =
+  [Some (bos "[]string{""MEV_COMMIT_PRECONF_ADDR""}");
+   Some (bos "[]string{""MEV_COMMIT_PROVIDER_REGISTRY_ADDR""}");
+   Some (bos "[]string{""MEV_COMMIT_BIDDER_REGISTRY_ADDR""}")].
+Proof. exact Config_proofs.contract_env_vars. Qed.
+Print Assumptions C11_contract_env_vars.
